@@ -86,6 +86,10 @@ def run(ctx, config='rel-all'):
             continue
         I, r = arena.run_fn(ctx, b['id'], config)
         muts = [e for e in r.events if e.is_own() and (e.kind == 'copy' or (e.kind == 'call' and e.callee and any(e.callee.endswith(m) for m in MUT)))]
+        # a crate-private helper that was inlined is judged by the mutations inside it (where its own checks are visible),
+        # not by the call to it
+        inlined = {f[0] for e in r.events for f in e.stack[1:]}
+        muts = [e for e in muts if not (e.kind == 'call' and e.callee.endswith('::insert_bytes') and e.callee in inlined and any(x is not e and x in muts and e.callee in [f[0] for f in x.stack[1:]] for x in muts))]
         if not muts:
             ctx.violation('R1', 'String::' + name, 'no-mutation', 'no byte-level mutation found in String::%s' % name, b.get('span'))
             continue
@@ -291,7 +295,22 @@ def run(ctx, config='rel-all'):
     if b:
         I, r = arena.run_fn(ctx, b['id'], config)
         ex = own_calls(r, '::extend_from_slice_copy')
-        check('push_str', 'vec.extend_from_slice_copy(string.as_bytes())', len(ex) == 1 and ex[0].args[0] == ('addr', ('fld', ('deref', SELF), VEC)) and ex[0].args[1] == ('param', 2), '', b.get('span'))
+        okp = len(ex) == 1 and ex[0].args[0] == ('addr', ('fld', ('deref', SELF), VEC)) and ex[0].args[1] == ('param', 2)
+        if not okp and not ex:
+            # the same append written out: reserve(s.len()), memcpy s -> BASE + len, len := len + s.len(), in that order
+            vref = ('addr', ('fld', ('deref', SELF), VEC))
+            n_ = app('len', ('param', 2))
+            rs = own_calls(r, "Vec::<'bump, T>::reserve")
+            cp = [e for e in r.events if e.is_own() and e.kind == 'copy']
+            sl = own_calls(r, '::set_len')
+            if len(rs) == 1 and len(cp) == 1 and len(sl) == 1:
+                dst = cp[0].args[1]
+                d_, c_ = lin(dst)
+                lens = [k for k in d_ if k[0] == 'load' and k[1][0] == 'fld' and k[1][2].endswith('Vec.len') and d_[k] == 1]
+                okp = rs[0].args == [vref, n_] and cp[0].callee == 'copy_nonoverlapping' and cp[0].args[0] == ('param', 2) and cp[0].args[2] == n_ and len(lens) == 1 \
+                    and sl[0].args[0] == vref and lin(sl[0].args[1]) == lin(app('add', lens[0], n_)) \
+                    and r.events.index(rs[0]) < r.events.index(cp[0]) < r.events.index(sl[0])
+        check('push_str', 'vec.extend_from_slice_copy(string.as_bytes())', okp, '', b.get('span'))
     b = string_method(db, 'truncate')
     if b:
         I, r = arena.run_fn(ctx, b['id'], config)
@@ -611,9 +630,17 @@ def check_tables(ctx, db, config):
     ncur = 0
     if lead:
         i0 = lead[0].args[1]
+        # a single exit fed by several `break (start, end)` sites: one exit per incoming value, located at the block it comes from
+        flat = []
         for e, st0, en0 in exits:
+            if en0[0] == 'phi' and all(isinstance(p_, int) for p_, _ in en0[2]):
+                for p_, x_ in en0[2]:
+                    flat.append((e, st0, x_, p_, en0))
+            else:
+                flat.append((e, st0, en0, e.top_block(), en0))
+        for e, st0, en0, at_block, en_whole in flat:
             ncur += 1
-            doms = [pb for pb in probes if g.block_dominates(pb, e.top_block())]
+            doms = [pb for pb in probes if g.block_dominates(pb, at_block)]
             # nearest dominating probe = the one dominated by all the others
             near = [pb for pb in doms if all(g.block_dominates(q, pb) for q in doms)]
             expect = probes[near[0]] if near else app('add', i0, C(1))
@@ -623,7 +650,7 @@ def check_tables(ctx, db, config):
                 bad.append((e, 'the broken part must end at the byte whose check failed (%s), it ends at %s' % (show(expect)[:40], show(en0)[:40])))
             # the remainder starts where the broken part ends
             rest = [v for bb, v in froms.items() if g.block_dominates(e.top_block(), bb)]
-            if not rest or any(lin(v) != lin(en0) for v in rest):
+            if not rest or any(v != en_whole and lin(v) != lin(en0) for v in rest):
                 bad.append((e, 'the remaining input must start exactly at the end of the broken part'))
     ctx.floor('R3', ncur, 7, 'error exits of the lossy decoder')
     if bad:
